@@ -292,7 +292,12 @@ func GenProgramLayout(id string, r, lr *rand.Rand, opts GenOpts) *Gen {
 	}
 	p.Pkgs = append(p.Pkgs, &Pkg{Name: "app", Dir: "app"})
 	for i := 1; i < npk; i++ {
-		p.Pkgs = append(p.Pkgs, &Pkg{Name: fmt.Sprintf("lib%c", 'a'+i-1), Dir: fmt.Sprintf("lib%c", 'a'+i-1)})
+		dir := fmt.Sprintf("lib%c", 'a'+i-1)
+		if i == 2 {
+			// an import path element that merely ends in "vendor" is not a vendor directory
+			dir = "thirdvendor/" + dir
+		}
+		p.Pkgs = append(p.Pkgs, &Pkg{Name: fmt.Sprintf("lib%c", 'a'+i-1), Dir: dir})
 	}
 	n := opts.MinNodes
 	if opts.MaxNodes > opts.MinNodes {
